@@ -92,6 +92,31 @@ Theorem C16_rng_free : forall (gstate value req : Type) (draw : req -> gstate ->
 Proof. exact call_rng_free. Qed.
 Print Assumptions C16_rng_free.
 
+(* ... instantiated for the real entry points: the decompositions with SVD or user initialisation, a deterministic SVD
+   and no mode shorter than the rank ([no_random_choice]; CP pads such a mode with random columns) have draw-free
+   skeletons, for ALL shapes / ranks / masks / repeat and iteration counts and through the class wrappers ... *)
+Theorem C16_deterministic_entry_points_draw_free : forall (e : ep) (o : opts),
+  deterministic_family e = true -> no_random_choice o = true -> draw_free (skeleton e o) = true.
+Proof. exact deterministic_draw_free. Qed.
+Print Assumptions C16_deterministic_entry_points_draw_free.
+
+(* ... hence: SVD- / user-initialised parafac, non_negative_parafac(_hals), constrained_parafac, tucker, partial_tucker,
+   non_negative_tucker(_hals), parafac2, svd_interface with truncated / symeig SVD draw NOTHING from any generator,
+   whatever random_state is (None included), and leave the global generator to the environment: repeated calls see
+   exactly the same thing *)
+Theorem C16_deterministic_entry_points : forall (gstate value req : Type) (draw : req -> gstate -> value * gstate) (seed : Z -> gstate)
+    (I : interp value req) (e : ep) (o : opts),
+  deterministic_family e = true -> no_random_choice o = true ->
+  forall (a : rsarg gstate) env g,
+    o_hist (fst (call gstate value req draw seed env I (skeleton e o) a g)) = [] /\
+    o_srcs (fst (call gstate value req draw seed env I (skeleton e o) a g)) = [] /\
+    exists k, snd (call gstate value req draw seed env I (skeleton e o) a g) = advance gstate env 0 k g.
+Proof.
+  intros gstate value req draw seed I e o F N.
+  exact (call_rng_free gstate value req draw seed I (skeleton e o) (deterministic_draw_free e o F N)).
+Qed.
+Print Assumptions C16_deterministic_entry_points.
+
 (* HISTORIES of one process (library calls with any random_state, arbitrary other use of the global
    generator, creation of generator objects, repeated calls / fit twice): every int-seeded call of a
    global-free entry point returns what the global-free semantics gives for (skeleton, arguments, seed)
@@ -120,13 +145,14 @@ Theorem C16_skeletons_global_free : forall (e : ep) (o : opts) (p : aparam),
 Proof. exact skeleton_gf. Qed.
 Print Assumptions C16_skeletons_global_free.
 
-(* CP_PLSR accepts random_state but calls initialize_cp(Z, 1) without it (SVD init, truncated SVD): global-free for
+(* (_partial: carries the hypothesis "no empty mode", shown necessary in the model by Example C16_cp_plsr_hypothesis)
+   CP_PLSR accepts random_state but calls initialize_cp(Z, 1) without it (SVD init, truncated SVD): global-free for
    EVERY kind of random_state -- nothing is ever drawn -- provided the contracted tensor has no empty mode (the
    rank-1 padding branch `shape[mode] < rank`, which would draw from the GLOBAL generator, is then unreachable) *)
-Theorem C16_cp_plsr_global_free : forall (o : opts) (p : aparam),
+Theorem C16_cp_plsr_global_free_partial : forall (o : opts) (p : aparam),
   forallb (Nat.leb 1) (tl (o_shape o)) = true -> global_free (skeleton E_cp_plsr o) p = true.
 Proof. exact gf_cp_plsr. Qed.
-Print Assumptions C16_cp_plsr_global_free.
+Print Assumptions C16_cp_plsr_global_free_partial.
 
 (* ------------------------------------------------------------------ the SEMANTIC criterion (no static analysis) *)
 
@@ -214,6 +240,19 @@ Theorem C16_source_local_semantics_exact : forall (gstate value req : Type) (dra
             forall g, prun gstate value req draw seed env I sk e w g = (e1, w1, advance gstate env (ticks w) k g).
 Proof. exact prun_local_agrees. Qed.
 Print Assumptions C16_source_local_semantics_exact.
+
+(* source level, functions WITHOUT random choices: a transcribed skeleton without any draw ([pdraw_free], evaluated by
+   corr:C16-static on the source of tensor_train, tensor_ring, robust_pca, tucker / parafac2 with SVD init, parafac with
+   a user init, the tenalg functions, ...) draws nothing from any generator whatever random_state is *)
+Theorem C16_source_rng_free : forall (gstate value req : Type) (draw : req -> gstate -> value * gstate) (seed : Z -> gstate)
+    (I : interp value req) (sk : pskel),
+  pdraw_free sk = true ->
+  forall (a : rsarg gstate) env g,
+    o_hist (fst (pcall gstate value req draw seed env I sk a g)) = [] /\
+    o_srcs (fst (pcall gstate value req draw seed env I sk a g)) = [] /\
+    exists k, snd (pcall gstate value req draw seed env I sk a g) = advance gstate env 0 k g.
+Proof. exact pcall_rng_free. Qed.
+Print Assumptions C16_source_rng_free.
 
 (* it accepts everything the first analysis accepts (in particular every hand-written seedable skeleton) *)
 Theorem C16_join_precise_subsumes : forall sk : skel, global_free sk PInt = true -> global_free_w sk = true.
@@ -366,7 +405,7 @@ Example C16_eager_seed_resolution_refuted :
   nth_error (fst (fst (run_hist Z Z nat toy_draw toy_seed eager_h 0%Z []))) 3.
 Proof. split; [vm_compute; reflexivity | vm_compute; discriminate]. Qed.
 
-(* the hypothesis of C16_cp_plsr_global_free is needed IN THE MODEL (an empty mode makes the un-seeded padding draw
+(* the hypothesis of C16_cp_plsr_global_free_partial is needed IN THE MODEL (an empty mode makes the un-seeded padding draw
    reachable; the implementation raises in the SVD of the empty unfolding before getting there) and satisfiable *)
 Example C16_cp_plsr_hypothesis :
   global_free (skeleton E_cp_plsr {| o_shape := [8; 0; 4]; o_rank := 2; o_init := IRandom; o_svd := STruncated; o_mask := false;
@@ -423,4 +462,24 @@ Example C16_source_analysis_examples :
    fst (pcall Z Z nat toy_draw toy_seed toy_env toy_interp sk (HInt 3%Z) 9%Z) /\
    length (o_hist (fst (pcall Z Z nat toy_draw toy_seed toy_env toy_interp sk (HInt 3%Z) 0%Z))) = 3 /\
    snd (pcall Z Z nat toy_draw toy_seed toy_env toy_interp (PSeq (PAssign 1 PGlobE) (PDraw 1 0)) (HInt 3%Z) 0%Z) = 1%Z).
+Proof. repeat split; reflexivity. Qed.
+
+(* functions without random choices: the hypotheses are satisfiable (SVD-initialised tucker / parafac / parafac2 with a
+   mask and any SVD but the randomized one, user-initialised CP through its class), each of them is needed (random
+   init, randomized SVD, a mode shorter than the rank with SVD init all draw; the rank condition is sufficient, not
+   necessary: a user init is draw-free for any rank), and randomised_parafac is not in the family *)
+Example C16_deterministic_examples :
+  let o := {| o_shape := [4; 3; 5]; o_rank := 2; o_init := ISvd; o_svd := STruncated; o_mask := true; o_nrep := 2; o_iters := 3; o_aux := 3 |} in
+  no_random_choice o = true /\
+  deterministic_family (E_estimator E_tucker) = true /\ deterministic_family E_parafac2 = true /\
+  deterministic_family E_randomised_parafac = false /\
+  draw_free (skeleton E_parafac o) = true /\ draw_free (skeleton E_parafac2 o) = true /\
+  draw_free (skeleton (E_estimator E_parafac) {| o_shape := [4; 3; 5]; o_rank := 9; o_init := IUser; o_svd := SSymeig; o_mask := false;
+                                                 o_nrep := 0; o_iters := 3; o_aux := 0 |}) = true /\
+  draw_free (skeleton E_parafac {| o_shape := [4; 3; 5]; o_rank := 4; o_init := ISvd; o_svd := STruncated; o_mask := false;
+                                   o_nrep := 0; o_iters := 3; o_aux := 0 |}) = false /\
+  draw_free (skeleton E_tucker {| o_shape := [4; 3; 5]; o_rank := 2; o_init := ISvd; o_svd := SRandomized; o_mask := false;
+                                  o_nrep := 0; o_iters := 3; o_aux := 0 |}) = false /\
+  draw_free (skeleton E_tucker {| o_shape := [4; 3; 5]; o_rank := 2; o_init := IRandom; o_svd := STruncated; o_mask := false;
+                                  o_nrep := 0; o_iters := 3; o_aux := 0 |}) = false.
 Proof. repeat split; reflexivity. Qed.
